@@ -660,6 +660,9 @@ class RZILTransformer(Transformer):
         else:
             raise NotImplementedError(f"Assign type {assign.assign_type} not handled.")
         self.add_op(assign.src)
+        if assign.src.value_type != assign.dest.value_type:
+            # a op= b is a = (type of a)(a op b)
+            assign.set_src(self.init_a_cast(assign.dest.value_type, assign.src))
 
     def assignment_expr(self, items):
         self.ext.set_token_meta_data("assignment_expr")
